@@ -391,3 +391,203 @@ func (p *Program) errorReturningFuncs() []string {
 	sort.Strings(out)
 	return out
 }
+
+// ---------------------------------------------------------------------------
+// C09: values collected in map-iteration order (declared `maprange N unordered-result v`) are sorted
+// before anything else looks at them: either the collecting function sorts v itself right after the loop
+// (more precisely: before v is used by anything but len/cap/append onto itself), or -- when it hands v out
+// unsorted -- every caller passes the result straight to sort.Slice / sort.Strings.
+
+func sweepUnorderedConsumers(prog *Program) Sweep {
+	s := Sweep{Name: "sweep.C09.unordered-consumers", Detail: "every accumulator declared unordered-result is sorted (sort.Strings / sort.Slice / sort.SliceStable on it) before any other use; a function that returns one unsorted has only callers that sort the result in the next statement"}
+	unsortedProducers := map[*types.Func]string{}
+	isSortCallOn := func(info *types.Info, st ast.Stmt, obj types.Object) bool {
+		es, ok := st.(*ast.ExprStmt)
+		if !ok {
+			return false
+		}
+		ce, ok := es.X.(*ast.CallExpr)
+		if !ok || len(ce.Args) == 0 {
+			return false
+		}
+		c := calleeOf(info, ce)
+		if c == nil || c.Pkg() == nil || c.Pkg().Path() != "sort" {
+			return false
+		}
+		id, ok := ast.Unparen(ce.Args[0]).(*ast.Ident)
+		return ok && info.Uses[id] == obj
+	}
+	var keys []string
+	for k := range prog.Funcs {
+		keys = append(keys, k)
+	}
+	sort.Strings(keys)
+	for _, k := range keys {
+		fi := prog.Funcs[k]
+		if fi.Con == nil || fi.Decl.Body == nil {
+			continue
+		}
+		for _, mode := range fi.Con.MapRange {
+			f := strings.Fields(mode)
+			if len(f) < 2 || f[0] != "unordered-result" {
+				continue
+			}
+			for _, name := range f[1:] {
+				s.Sites++
+				// the variable
+				var obj types.Object
+				ast.Inspect(fi.Decl.Body, func(n ast.Node) bool {
+					if id, ok := n.(*ast.Ident); ok && id.Name == name && obj == nil {
+						if o := fi.Pkg.TypesInfo.Defs[id]; o != nil {
+							obj = o
+						}
+					}
+					return true
+				})
+				if obj == nil {
+					s.Offenders = append(s.Offenders, k+": unordered-result variable "+name+" not found")
+					continue
+				}
+				// top-level statements of the function body: find the first sort call on v; before it v may only be
+				// defined, appended to, ranged into by the collecting loop
+				sortedAt := -1
+				for i, st := range fi.Decl.Body.List {
+					if isSortCallOn(fi.Pkg.TypesInfo, st, obj) {
+						sortedAt = i
+						break
+					}
+				}
+				usedBeforeSort := func(limit int) string {
+					bad := ""
+					for i, st := range fi.Decl.Body.List {
+						if limit >= 0 && i >= limit {
+							break
+						}
+						ast.Inspect(st, func(n ast.Node) bool {
+							switch n := n.(type) {
+							case *ast.AssignStmt:
+								// v = append(v, ...) / v := ...
+								if len(n.Lhs) == 1 {
+									if id, ok := n.Lhs[0].(*ast.Ident); ok && (fi.Pkg.TypesInfo.Uses[id] == obj || fi.Pkg.TypesInfo.Defs[id] == obj) {
+										if ce, ok := n.Rhs[0].(*ast.CallExpr); ok {
+											if fid, ok := ce.Fun.(*ast.Ident); ok && (fid.Name == "append" || fid.Name == "make") {
+												// the arguments after the first may be anything but v itself
+												for _, a := range ce.Args[1:] {
+													ast.Inspect(a, func(m ast.Node) bool {
+														if id2, ok := m.(*ast.Ident); ok && fi.Pkg.TypesInfo.Uses[id2] == obj {
+															bad = "used inside an append argument"
+														}
+														return true
+													})
+												}
+												return false
+											}
+										}
+										if _, isLit := n.Rhs[0].(*ast.CompositeLit); isLit {
+											return false
+										}
+									}
+								}
+							case *ast.ReturnStmt:
+								for _, r := range n.Results {
+									ast.Inspect(r, func(m ast.Node) bool {
+										if id2, ok := m.(*ast.Ident); ok && fi.Pkg.TypesInfo.Uses[id2] == obj {
+											bad = "returned"
+										}
+										return true
+									})
+								}
+								return false
+							case *ast.Ident:
+								if fi.Pkg.TypesInfo.Uses[n] == obj {
+									bad = "read at " + prog.Fset.Position(n.Pos()).String()
+								}
+							}
+							return true
+						})
+					}
+					return bad
+				}
+				if sortedAt >= 0 {
+					if bad := usedBeforeSort(sortedAt); bad != "" && bad != "returned" {
+						s.Offenders = append(s.Offenders, fmt.Sprintf("%s: %s is %s before it is sorted", k, name, bad))
+					}
+					continue
+				}
+				// never sorted here: it must only be handed out, and every caller sorts
+				if bad := usedBeforeSort(-1); bad != "" && bad != "returned" {
+					s.Offenders = append(s.Offenders, fmt.Sprintf("%s: %s is never sorted and %s", k, name, bad))
+					continue
+				}
+				unsortedProducers[fi.Obj.Origin()] = k
+			}
+		}
+	}
+	// callers of unsorted producers
+	for _, k := range keys {
+		fi := prog.Funcs[k]
+		if fi.Decl.Body == nil {
+			continue
+		}
+		var checkBlock func(list []ast.Stmt)
+		handled := map[*ast.CallExpr]bool{}
+		checkBlock = func(list []ast.Stmt) {
+			for i, st := range list {
+				as, ok := st.(*ast.AssignStmt)
+				if !ok || len(as.Rhs) != 1 || len(as.Lhs) != 1 {
+					continue
+				}
+				ce, ok := as.Rhs[0].(*ast.CallExpr)
+				if !ok {
+					continue
+				}
+				c := calleeOf(fi.Pkg.TypesInfo, ce)
+				if c == nil || unsortedProducers[c.Origin()] == "" {
+					continue
+				}
+				id, ok := as.Lhs[0].(*ast.Ident)
+				if !ok {
+					continue
+				}
+				obj := fi.Pkg.TypesInfo.Defs[id]
+				if obj == nil {
+					obj = fi.Pkg.TypesInfo.Uses[id]
+				}
+				if i+1 < len(list) && isSortCallOn(fi.Pkg.TypesInfo, list[i+1], obj) {
+					handled[ce] = true
+				}
+			}
+		}
+		ast.Inspect(fi.Decl.Body, func(n ast.Node) bool {
+			if b, ok := n.(*ast.BlockStmt); ok {
+				checkBlock(b.List)
+			}
+			return true
+		})
+		ast.Inspect(fi.Decl.Body, func(n ast.Node) bool {
+			ce, ok := n.(*ast.CallExpr)
+			if !ok {
+				return true
+			}
+			c := calleeOf(fi.Pkg.TypesInfo, ce)
+			if c == nil || unsortedProducers[c.Origin()] == "" {
+				return true
+			}
+			s.Sites++
+			if !handled[ce] {
+				s.Offenders = append(s.Offenders, fmt.Sprintf("%s uses the unsorted result of %s at %s without sorting it first", k, unsortedProducers[c.Origin()], prog.Fset.Position(ce.Pos())))
+			}
+			return true
+		})
+	}
+	sort.Strings(s.Offenders)
+	s.Status = "discharged"
+	if len(s.Offenders) > 0 || s.Sites == 0 {
+		s.Status = "failed"
+	}
+	return s
+}
+
+func init() {
+	sweepTable["C09"] = append(sweepTable["C09"], sweepUnorderedConsumers)
+}
